@@ -3,6 +3,7 @@ CONSTANTS
   Impl = "pinned"
   Echo = TRUE
   MaxLen = 8
+  Fixes = {}
   MaxIn = 4
   MaxEng = 2
   PreInit = FALSE
